@@ -74,7 +74,13 @@ def run(plan):
         if o.kind != "ok":
             res.fail(f"{opname} raised {o.exc_type}", f"{spec} -> {o.exc!r}")
             return
-        if mixed and opname == "refresh" and not getattr(dev, "bad_frames", None) is None:
+        from refmodel import codec as _codec
+        decodable_state = any(len(f) >= 28 and f[10] == 0xC0 and _codec.response_valid_by_stated_rule(f)
+                              for f in (getattr(dev, "bad_frames", None) or []))
+        if decodable_state:
+            w.probe("injected_frame_is_itself_a_decodable_state_report")
+        if mixed and opname == "refresh" and not getattr(dev, "bad_frames", None) is None and not (
+                decodable_state and spec.get("place") in ("after_good", "both")):
             if not ac.online:
                 res.fail("refresh offline although good frames were delivered in the same exchange", f"{spec}")
                 return
